@@ -259,7 +259,7 @@ def bounded(tier, seed):
     res = native("mesh.py", {"seed": seed, "thorough": tier != "quick"}, timeout=3000)
     if not res.get("ok"):
         raise RuntimeError(f"native driver failed: {res}")
-    return [{"name": "all_decompositions_of_small_grids", "bound": "every decomposition of grids up to 6x5 (quick) / 7x6x3 (thorough) cells incl. uneven chunks, all grid classes where from_bounds accepts the sub-bounds; ranks 0-1; operators with neighbour ghost cells",
+    return [{"name": "all_decompositions_of_small_grids", "bound": "every decomposition of grids up to 6x5 (quick) / 7x6x3 (thorough) cells incl. uneven chunks, all grid classes where from_bounds accepts the sub-bounds; ranks 0-1; operators with neighbour ghost cells; _subdivide(num, chunks) tiles the axis with balanced chunks for every pair with num <= 120 (exhaustive; float intermediates are outside the real-number model)",
              "cases": res["cases"], "failures": res["failures"]}]
 
 
